@@ -1432,7 +1432,11 @@ pub fn run_glmfit(em: &mut Em, c: GlmCase) {
         }
         match res {
             Err(e) => {
-                ctx.fail("fit_succeeds", &class, format!("fit returned {}", err_line(&e)));
+                // the error kind is part of the class: only "the line search met a NaN / Inf cost" with the identity link and
+                // power >= 1 (the mean left the domain of the deviance: the error-returning face of open finding 6) is listed
+                let msg = err_line(&e);
+                let kind = if msg.contains("NaN or Inf") { "linesearch_nan_or_inf" } else { err_kind(&msg) };
+                ctx.fail("fit_succeeds", &format!("{}:err={}", class, kind), format!("fit returned {}", msg));
                 "err".into()
             }
             Ok(m) => {
